@@ -224,7 +224,7 @@ pub async fn request_certificate(
 	drop(data_builder);
 
 	// Finalize the order by sending the CSR
-	let key_pair = certificate::get_key_pair(cert).await?;
+	let (key_pair, is_new_key_pair) = certificate::get_key_pair(cert).await?;
 	let domains: Vec<String> = cert
 		.identifiers
 		.iter()
@@ -294,6 +294,9 @@ pub async fn request_certificate(
 		.public_eq(&key_pair.inner_key)
 	{
 		return Err("the received certificate does not match the private key".into());
+	}
+	if is_new_key_pair {
+		storage::set_keypair(&cert.file_manager, &key_pair).await?;
 	}
 	storage::write_certificate(&cert.file_manager, crt.as_bytes()).await?;
 
